@@ -264,6 +264,12 @@ def call_external(self, st, name, args, kwargs, node):
             return self.raise_exc(st, type(e).__name__, node, "codecs", str(e))
         if isinstance(r, (str, bytes)):
             return [(st, "val", r)]
+    if name == "unicodedata.normalize" and len(args) == 2 and not kwargs and all(isinstance(a, str) for a in args):
+        import unicodedata as _ud
+        try:
+            return [(st, "val", _ud.normalize(args[0], args[1]))]
+        except ValueError as e:
+            return self.raise_exc(st, "ValueError", node, "unicodedata", str(e))
     if name in ("six.text_type", "six.u") and len(args) == 1 and not kwargs and isinstance(args[0], str):
         return [(st, "val", args[0])]
     if name in ("time.time",):
@@ -345,6 +351,15 @@ def call_bound(self, st, bm, args, kwargs, node):
             return [(st, "val", Top("fs." + name))]
     if isinstance(recv, (int, float)):
         return [(st, "val", Top("num." + name))]
+    if isinstance(recv, bytes) and name in ("decode", "strip", "lstrip", "rstrip", "startswith", "endswith", "replace", "split", "splitlines") \
+            and all(isinstance(a, (bytes, str, int)) or a is None for a in args) and all(isinstance(v, (str, int)) for v in kwargs.values()):
+        try:
+            r = getattr(recv, name)(*args, **kwargs)
+        except Exception as e:      # noqa
+            return self.raise_exc(st, type(e).__name__, node, "bytes", str(e))
+        if isinstance(r, list):
+            r = st.alloc(HObj("list", kind="list", items=list(r)))
+        return [(st, "val", r)]
     raise U("method %s on %r at %s" % (name, recv, self.loc(node)))
 
 
